@@ -29,7 +29,7 @@ def cells_chunk(task):
     if task.get("via"):
         bx = f"{bx} (set with SetBounds on an evolvent built for {task['via']})"
     n = 2 ** (N * m)
-    w = (np.array(up) - np.array(lo)) / 2 ** m
+    w = (np.array(up, dtype=float) - np.array(lo, dtype=float)) / 2 ** m
     msgs = []
     q = 0
     corners = list(itertools.product((-0.49, 0.49), repeat=N))
@@ -58,6 +58,31 @@ def cells_chunk(task):
                                 f"y = {yy.tolist()}")
         if len(msgs) > 8:
             break
+    if a == 0 and b == n and n <= 2 ** 10 and not msgs:
+        msgs += curve.query_mix(ev, N, m, lo, up, f"N={N} m={m} box={bx}")
+        if bx.startswith("I:"):
+            # the cell centres are the integers: queries given as Python int lists and as integer arrays
+            side = 2 ** m
+            for i in range(n):
+                left = i / n
+                c = ev.GetImage(left)
+                ci = [int(round(float(v))) for v in c]
+                for arg, kind in ((ci, "list of Python ints"), (np.array(ci, dtype=np.int64), "int64 array")):
+                    for fn, name in ((ev.GetInverseImage, "GetInverseImage"), (ev.GetPreimages, "GetPreimages")):
+                        back = fn(arg)
+                        q += 1
+                        if back != left:
+                            msgs.append(f"N={N} m={m} box={bx}: {name}({kind} {ci}) = {back!r}; the point is the centre of "
+                                        f"the cell of subinterval {i}, whose left end is {left!r}")
+                            break
+                    if msgs:
+                        break
+                y2 = ev.GetImage(left)
+                if not np.array_equal(y2, c):
+                    msgs.append(f"N={N} m={m} box={bx}: after an integer-typed inverse query GetImage({left!r}) returns "
+                                f"{y2.tolist()} instead of {c.tolist()}")
+                if msgs:
+                    break
     if b == n:
         back = ev.GetInverseImage(ev.GetImage(1.0))
         q += 1
@@ -165,6 +190,10 @@ def run(ctx):
             step = max(64, n // 32)
             for a in range(0, n, step):
                 tasks.append(dict(N=N, m=m, box=bx, a=a, b=min(n, a + step)))
+    # a unit box at 1e10, integer-typed bounds, and the box whose cell centres are the integers (integer-typed queries)
+    for (N, m) in curve.small_configs(8 if not th else 10):
+        for bx in ("B4", "Z", f"I:{m}"):
+            tasks.append(dict(N=N, m=m, box=bx, a=0, b=2 ** (N * m)))
     # the same queries with the box configured through SetBounds (every ordered pair of boxes)
     for (N, m) in curve.small_configs(8 if not th else 10):
         for via, bx in curve.VIA_PAIRS:
